@@ -162,6 +162,9 @@ type Normer struct {
 	resolving map[*ssa.Parameter]bool
 	curFrom   *ssa.BasicBlock
 	phiDepth  int
+	NoInline  map[string]bool        // callee names kept as uninterpreted calls
+	AtomAlias map[string]string      // atom string -> role (e.g. "invoke:Bounds(bc)" -> "B")
+	Ctx       []ssa.CallInstruction  // calling context used to resolve helper parameters
 	P         *Prog
 	Bind      map[ssa.Value]string // role names for values (parameters, ...)
 	PhiChoice map[*ssa.Phi]int     // select one incoming edge of a phi (decision-table extraction)
@@ -174,7 +177,7 @@ type Normer struct {
 }
 
 func NewNormer(p *Prog) *Normer {
-	return &Normer{P: p, Bind: map[ssa.Value]string{}, PhiChoice: map[*ssa.Phi]int{}, MaxInline: 3, memo: map[ssa.Value]Poly{}}
+	return &Normer{P: p, Bind: map[ssa.Value]string{}, PhiChoice: map[*ssa.Phi]int{}, MaxInline: 3, memo: map[ssa.Value]Poly{}, NoInline: map[string]bool{}, AtomAlias: map[string]string{}}
 }
 
 // BindParams gives role names to the parameters of fn by position ("" keeps the default).
@@ -323,6 +326,13 @@ func (n *Normer) Norm(v ssa.Value) Poly {
 	case *ssa.Lookup:
 		return pAtom("idx(" + n.Norm(x.X).asAtom() + "," + n.Norm(x.Index).String() + ")")
 	case *ssa.Extract:
+		if call, ok := x.Tuple.(*ssa.Call); ok {
+			if _, bound := n.Bind[call]; !bound {
+				if r, ok := n.inlineCall(call, x.Index); ok {
+					return r
+				}
+			}
+		}
 		return pAtom(fmt.Sprintf("%s#%d", n.Norm(x.Tuple).asAtom(), x.Index))
 	case *ssa.Global:
 		return pAtom("&global:" + shortName(x.Pkg.Pkg.Path()) + "." + x.Name())
@@ -647,7 +657,7 @@ func (n *Normer) normCall(x *ssa.Call) Poly {
 		for _, a := range cc.Args {
 			args = append(args, n.Norm(a).String())
 		}
-		return pAtom("invoke:" + cc.Method.Name() + "(" + strings.Join(args, ",") + ")")
+		return n.atom("invoke:" + cc.Method.Name() + "(" + strings.Join(args, ",") + ")")
 	}
 	if b, ok := cc.Value.(*ssa.Builtin); ok {
 		var args []string
@@ -688,21 +698,20 @@ func (n *Normer) normCall(x *ssa.Call) Poly {
 			return pAtom(callee.Name() + "(" + strings.Join(s, ",") + ")")
 		}
 	}
-	// inline simple pure repo functions: a single block ending in Return of one value
-	if callee.Pkg != nil && strings.HasPrefix(callee.Pkg.Pkg.Path(), modPath) && n.depth < n.MaxInline && inlinable(callee) {
-		env := map[ssa.Value]Poly{}
-		for i, p := range callee.Params {
-			if i < len(argp) {
-				env[p] = argp[i]
-			}
+	// inline simple pure repo functions: a single block ending in Return
+	if callee.Signature.Results().Len() == 1 {
+		if r, ok := n.inlineCall(x, 0); ok {
+			return r
 		}
-		ret := callee.Blocks[0].Instrs[len(callee.Blocks[0].Instrs)-1].(*ssa.Return)
-		n.env = append(n.env, env)
-		n.depth++
-		res := n.Norm(ret.Results[0])
-		n.depth--
-		n.env = n.env[:len(n.env)-1]
-		return res
+	}
+	// well-known pure standard library accessors
+	switch full {
+	case "(image.Rectangle).Dx":
+		b := n.Norm(cc.Args[0]).asAtom()
+		return pAdd(pAtom(b+".Max.X"), pAtom(b+".Min.X"), -1)
+	case "(image.Rectangle).Dy":
+		b := n.Norm(cc.Args[0]).asAtom()
+		return pAdd(pAtom(b+".Max.Y"), pAtom(b+".Min.Y"), -1)
 	}
 	var args []string
 	for _, a := range argp {
@@ -712,7 +721,32 @@ func (n *Normer) normCall(x *ssa.Call) Poly {
 	if callee.Pkg != nil && strings.HasPrefix(callee.Pkg.Pkg.Path(), modPath) {
 		name = n.P.FuncName(callee)
 	}
-	return pAtom("call:" + name + "(" + strings.Join(args, ",") + ")")
+	return n.atom("call:" + name + "(" + strings.Join(args, ",") + ")")
+}
+
+// inlineCall: result idx of a call to a single-block pure repository function, with the
+// arguments substituted for the parameters.
+func (n *Normer) inlineCall(x *ssa.Call, idx int) (Poly, bool) {
+	callee := x.Common().StaticCallee()
+	if callee == nil || callee.Pkg == nil || !strings.HasPrefix(callee.Pkg.Pkg.Path(), modPath) || n.depth >= n.MaxInline || !inlinable(callee) || n.NoInline[n.P.FuncName(callee)] {
+		return nil, false
+	}
+	ret := callee.Blocks[0].Instrs[len(callee.Blocks[0].Instrs)-1].(*ssa.Return)
+	if idx >= len(ret.Results) {
+		return nil, false
+	}
+	env := map[ssa.Value]Poly{}
+	for i, p := range callee.Params {
+		if i < len(x.Common().Args) {
+			env[p] = n.Norm(x.Common().Args[i])
+		}
+	}
+	n.env = append(n.env, env)
+	n.depth++
+	res := n.Norm(ret.Results[idx])
+	n.depth--
+	n.env = n.env[:len(n.env)-1]
+	return res, true
 }
 
 func inlinable(fn *ssa.Function) bool {
@@ -721,7 +755,7 @@ func inlinable(fn *ssa.Function) bool {
 	}
 	b := fn.Blocks[0]
 	ret, ok := b.Instrs[len(b.Instrs)-1].(*ssa.Return)
-	if !ok || len(ret.Results) != 1 {
+	if !ok || len(ret.Results) < 1 {
 		return false
 	}
 	for _, ins := range b.Instrs {
@@ -888,6 +922,20 @@ func (n *Normer) resolveParam(fn *ssa.Function, idx int) (Poly, bool) {
 	}
 	n.resolving[p] = true
 	defer delete(n.resolving, p)
+	// calling context first (innermost matching call)
+	for k := len(n.Ctx) - 1; k >= 0; k-- {
+		if n.Ctx[k].Common().StaticCallee() == fn {
+			args := n.Ctx[k].Common().Args
+			if idx >= len(args) {
+				return nil, false
+			}
+			saved := n.Ctx
+			n.Ctx = n.Ctx[:k]
+			v := n.Norm(args[idx])
+			n.Ctx = saved
+			return v, true
+		}
+	}
 	sites := n.P.callSitesOf(fn)
 	if len(sites) == 0 {
 		return nil, false
@@ -906,4 +954,100 @@ func (n *Normer) resolveParam(fn *ssa.Function, idx int) (Poly, bool) {
 		}
 	}
 	return agreed, true
+}
+
+func (n *Normer) atom(s string) Poly {
+	if r, ok := n.AtomAlias[s]; ok {
+		return pAtom(r)
+	}
+	return pAtom(s)
+}
+
+// ---------------------------------------------------------------------------------------------
+// Deep search: instructions of a function and of the unexported same-package helpers it calls
+// (so that extracting code into a helper does not hide it from a rule).
+
+type DeepSite struct {
+	Ins  ssa.Instruction
+	Fn   *ssa.Function
+	Path []ssa.CallInstruction // calls leading from the root function to Fn
+}
+
+func (p *Prog) deepEach(root *ssa.Function, maxDepth int, f func(s DeepSite)) {
+	var walk func(fn *ssa.Function, path []ssa.CallInstruction)
+	walk = func(fn *ssa.Function, path []ssa.CallInstruction) {
+		eachInstr(fn, func(b *ssa.BasicBlock, ins ssa.Instruction) {
+			f(DeepSite{ins, fn, path})
+			if len(path) >= maxDepth {
+				return
+			}
+			ci, ok := ins.(ssa.CallInstruction)
+			if !ok {
+				return
+			}
+			cal := ci.Common().StaticCallee()
+			if cal == nil || !isRepoFunc(cal) || cal.Blocks == nil || cal.Pkg != root.Pkg || cal.Parent() != nil {
+				return
+			}
+			if cal.Object() == nil || cal.Object().Exported() {
+				return
+			}
+			for _, pc := range path {
+				if pc.Common().StaticCallee() == cal {
+					return
+				}
+			}
+			if cal == root {
+				return
+			}
+			walk(cal, append(append([]ssa.CallInstruction{}, path...), ci))
+		})
+	}
+	walk(root, nil)
+}
+
+// deepCallsTo: calls to target in root or its helpers (depth <= 2).
+func (p *Prog) deepCallsTo(root, target *ssa.Function) []DeepSite {
+	var out []DeepSite
+	if root == nil || target == nil {
+		return nil
+	}
+	p.deepEach(root, 2, func(s DeepSite) {
+		if c, ok := s.Ins.(*ssa.Call); ok && c.Common().StaticCallee() == target {
+			out = append(out, s)
+		}
+	})
+	return out
+}
+
+// ReachCondDeep: condition (relative to `from` in root, nil = entry) under which the site's
+// instruction is reached, through the chain of helper calls.
+func (n *Normer) ReachCondDeep(root *ssa.Function, from *ssa.BasicBlock, s DeepSite) *Cond {
+	saved := n.Ctx
+	defer func() { n.Ctx = saved }()
+	cond := cTrue
+	cur := root
+	for k, call := range s.Path {
+		n.Ctx = s.Path[:k]
+		f := from
+		if k > 0 {
+			f = nil
+		}
+		cond = cAnd(cond, n.ReachCond(cur, f, call.Block()))
+		cur = call.Common().StaticCallee()
+	}
+	n.Ctx = s.Path
+	f := from
+	if len(s.Path) > 0 {
+		f = nil
+	}
+	return cAnd(cond, n.ReachCond(cur, f, s.Ins.Block()))
+}
+
+// NormAt: normal form of v (a value of the site's function) in the site's calling context.
+func (n *Normer) NormAt(s DeepSite, v ssa.Value) Poly {
+	saved := n.Ctx
+	n.Ctx = s.Path
+	defer func() { n.Ctx = saved }()
+	return n.Norm(v)
 }
